@@ -30,6 +30,7 @@ type loopInfo struct {
 	Spec    *LoopSpec
 	// recorded at header
 	decAtHeader *Term
+	progAtHeader *Term
 	merge       *ssa.BasicBlock
 	mergeDone   bool
 	headState   *State
@@ -77,6 +78,7 @@ type FnRun struct {
 	parent    *FnRun
 	iters     map[ssa.Value]SliceV
 	loopPhis  map[string]*ssa.Phi
+	loopLets  map[string]CV // ghost snapshots declared by `loop N let`
 	loopEntryState *State
 	callOrdinal int
 	calleeCount map[string]int
